@@ -215,6 +215,65 @@ def check_variable_lookup(chk, ee):
         chk.bad('C04.L', ee.mod, 'evaluate_expression', f'{len(loc)} local reads, {len(glob)} global reads', 'variable lookup must be: locals (membership), then globals', node=stmts[0])
 
 
+def check_injection_sim(chk):
+    """C04.I primary: execute_script evaluated on an empty script with caller-supplied globals that bind one library name to a host function and one to null -> True when decided OK"""
+    from ..absint import Interp, ADict, AList, Sym, RaiseSig
+    mod = chk.repo.module('runtime')
+    func = mod.func('execute_script', 'C04.I')
+    lib = {n: Sym('libfn', n) for n in ('arrayNew', 'arrayLength', 'stringNew', 'systemLog')}
+
+    def run(options):
+        it = Interp(mod, 'C04.I')
+        it.repo = chk.repo
+        it.max_depth = 12
+        it.globals['SCRIPT_FUNCTIONS'] = ADict(dict(lib))
+        it.oracles['_execute_script_helper'] = lambda args, node: None
+        # helpers in other modules see the same table
+        it.sub_interp(chk.repo.module('library')).globals['SCRIPT_FUNCTIONS'] = it.globals['SCRIPT_FUNCTIONS']
+        try:
+            it.call_function(func, [ADict({'statements': AList([])})] + ([options] if options is not None else []), func)
+        except RaiseSig as sig:
+            return sig
+        return None
+    host = Sym('hostfn', 'callers-arrayNew')
+    G = ADict({'arrayNew': host, 'arrayLength': None, 'mine': 1.0})
+    opts = ADict({'globals': G})
+    r = run(opts)
+    if r is not None:
+        chk.bad('C04.I', mod, 'execute_script', f'raises {r.cls}', f'execute_script on an empty script with caller-supplied globals raises {r.cls}', node=func)
+        return False
+    problems = []
+    if opts.d.get('globals') is not G:
+        problems.append('the globals object supplied by the caller is replaced by another object (the caller no longer sees the final globals)')
+    else:
+        if G.d.get('arrayNew') is not host:
+            problems.append(f'the caller-supplied global arrayNew is overwritten by {G.d.get("arrayNew")!r}')
+        if 'arrayLength' not in G.d or G.d['arrayLength'] is not None:
+            problems.append(f'the global arrayLength, which the caller bound to null, is overwritten by {G.d.get("arrayLength")!r} (a name bound to null is still the caller\'s)')
+        if G.d.get('mine') != 1.0:
+            problems.append('an unrelated caller global is changed')
+        for nm in ('stringNew', 'systemLog'):
+            if G.d.get(nm) != lib[nm]:
+                problems.append(f'the library function {nm} is not added to the globals ({G.d.get(nm)!r})')
+    opts2 = ADict({})
+    r2 = run(opts2)
+    if r2 is not None:
+        problems.append(f'execute_script with options that have no globals raises {r2.cls}')
+    else:
+        g2 = opts2.d.get('globals')
+        if not isinstance(g2, ADict) or any(g2.d.get(nm) != lib[nm] for nm in lib):
+            problems.append(f'with no caller globals the library is not installed into options[\'globals\'] ({g2!r})'[:200])
+    r3 = run(None)
+    if r3 is not None:
+        problems.append(f'execute_script without options raises {r3.cls}')
+    if problems:
+        chk.bad('C04.I', mod, 'execute_script', problems[0][:110], f'evaluation of execute_script on an empty script: {problems[0]}' + (f' (+{len(problems) - 1} more)' if len(problems) > 1 else ''), node=func)
+        return False
+    chk.ok('C04.I', 'execute_script evaluated on an empty script: caller-supplied globals keep a library name bound to a host function and one bound to null, other library functions are '
+           'added to the same globals object; without caller globals the library is installed into options[globals]', count=3)
+    return True
+
+
 def check_injection(chk):
     mod = chk.repo.module('runtime')
     func = mod.func('execute_script', 'C04.I')
@@ -439,7 +498,7 @@ def run(chk):
     chk.rule('C04.I', 'library injection never overwrites a caller-supplied name (membership filter)', floor=1)
     chk.rule('C04.R', 'function statement stores unconditionally a callable bound to its own function object', floor=1)
     chk.rule('C04.B', 'parameter binding decision table', floor=6)
-    chk.rule('C04.O', 'library callbacks: fresh argument list, enclosing options unchanged', floor=8)
+    chk.rule('C04.O', 'library callbacks: fresh argument list, enclosing options unchanged', floor=3)
     chk.assumptions += ['models are schema-valid; host functions follow the (args, options) calling convention']
     ee = EvalExpr(chk.repo, 'C04.L')
     chk.guard('C04.W', check_assignment, chk)
@@ -448,7 +507,10 @@ def run(chk):
     from .. import evalsim
     chk.guard('C04.L', evalsim.report, chk, {'lookup': 'C04.L'}, {'lookup': 'variables: keywords, then locals by membership (a local bound to null shadows the global), then globals; '
                                                                           'functions: locals, globals, built-ins only under the builtins flag; undefined function raises'})
-    chk.guard('C04.I', check_injection, chk)
+    if chk.guard('C04.I', check_injection_sim, chk):
+        chk.advisory('C04.I', check_injection, chk)
+    else:
+        chk.guard('C04.I', check_injection, chk)
     chk.guard('C04.R', check_function_statement, chk)
     chk.guard('C04.B', check_binding, chk)
     chk.guard('C04.O', check_callbacks, chk)
